@@ -819,6 +819,48 @@ func (r *runner) machineCases(c *mach.Ctx, m *channel.StateMachine, class string
 	}
 }
 
+// happyPath opens a channel and runs `updates` complete update rounds on a fresh machine, so that the
+// machine holds a history of previous transactions, a fully signed current one and (at the clone points
+// in the middle of a round) a staged one with a partial signature set.
+func (r *runner) happyPath(c *mach.Ctx, updates int) {
+	m, err := channel.NewStateMachine(c.AccMap(c.Me), *c.Params)
+	if err != nil {
+		panic(err)
+	}
+	must := func(o mach.Op) {
+		if out, _ := c.Apply(m, o); out != "OK" && out != "OKSig" {
+			panic("c19: happy path step " + o.Kind + " answered " + out)
+		}
+	}
+	signAll := func(cloneAt int) {
+		for i := 0; i < c.N; i++ {
+			if i == cloneAt {
+				r.machineCases(c, m, "mid-round/"+c.Kind)
+			}
+			if i == c.Me {
+				must(mach.Op{Kind: "Sig"})
+			} else {
+				must(mach.Op{Kind: "AddSig", Idx: i, Sig: c.Sign(i, m.StagingState())})
+			}
+		}
+	}
+	st := c.Base(0, false)
+	must(mach.Op{Kind: "Init", Alloc: &st.Allocation, Data: st.Data})
+	signAll(-1)
+	must(mach.Op{Kind: "EnableInit"})
+	must(mach.Op{Kind: "SetFunded"})
+	for u := 0; u < updates; u++ {
+		must(mach.Op{Kind: "Update", S: c.Succ(m.CurrentTX().State, c.Me, false), Actor: c.Me})
+		at := -1
+		if u == updates-1 {
+			at = 1 + r.g.R.Intn(c.N-1)
+		}
+		signAll(at)
+		must(mach.Op{Kind: "EnableUpdate"})
+	}
+	r.machineCases(c, m, "history/"+c.Kind)
+}
+
 func (r *runner) machines(count, maxLen int) {
 	g := r.g
 	kinds := []string{"none", "pay", "mock"}
@@ -838,6 +880,7 @@ func (r *runner) machines(count, maxLen int) {
 				r.machineCases(c, m, "after-ops/"+c.Kind)
 			}
 		}
+		r.happyPath(c, 2+g.R.Intn(2))
 		// an abstract state the sequences rarely stop in: staged transaction with a partial signature set
 		cur := c.SignedTx(c.Base(3, false), 1<<uint(n)-1)
 		stg := c.SignedTx(c.Succ(cur.State, 0, g.R.Intn(2) == 0), g.R.Intn(1<<uint(n)))
@@ -888,9 +931,9 @@ func Run(seed int64, tier, out string) {
 	curve := (*ecdsa.PublicKey)(g.Account().Address().(*simwallet.Address)).Curve
 	r.curve = curve
 	r.curveKey = sharedKey(reflect.ValueOf(&curve).Elem())
-	rounds, nm, ml, na := 36, 10, 30, 6
+	rounds, nm, ml, na := 20, 6, 24, 4
 	if tier == "thorough" {
-		rounds, nm, ml, na = 700, 120, 80, 60
+		rounds, nm, ml, na = 500, 100, 80, 50
 	}
 	for i := 0; i < rounds; i++ {
 		r.simple(i)
